@@ -76,6 +76,19 @@ More ==
       EncABC(OP_CLOSE, 0, 0, 0), EncAsBx(OP_NOP, 0, 5),
       EncABC(OP_VARARG, 0, 2, 0), EncABC(OP_VARARG, 4, 3, 0) }
 
+MC_Shapes == {MC_Shape}
+
+(* frame rules: parameters and the implicit arg slot against every small     *)
+(* register count, with instructions that only READ registers 0..4           *)
+MC_FrameShapes ==
+    { [nreg |-> nr, nup |-> 1, np |-> n, va |-> v, kt |-> <<3, 2>>, ks |-> <<"s", "">>, sk |-> <<"s", "">>, pnup |-> <<1, 0>>]
+      : nr \in 1..5, n \in 0..4, v \in {0, 2, 3, 7} }
+MC_AlphaFrame ==
+    { EncABC(OP_RETURN, r, 2, 0) : r \in 0..4 } \cup { EncABx(OP_SETGLOBAL, r, 0) : r \in 0..4 } \cup
+    { EncABC(OP_TEST, r, 0, 0) : r \in 0..4 } \cup { EncABC(OP_GETTABLEKS, 0, r, 256) : r \in 0..4 } \cup
+    { EncABC(OP_MOVE, 0, r, 0) : r \in 0..4 } \cup { EncABC(OP_LOADNIL, 0, r, 0) : r \in 0..4 } \cup
+    { EncABC(OP_VARARG, r, 0, 0) : r \in 0..4 } \cup { EncABC(OP_CALL, r, 2, 1) : r \in 0..3 }
+
 MC_AlphaCore == Core
 MC_AlphaFull == Core \cup More \cup
     { EncABx(OP_CLOSURE, 6, 0), EncABC(OP_VARARG, 6, 0, 0), EncABC(OP_TESTSET, 6, 1, 0), EncABC(OP_GETUPVAL, 6, 0, 0) }
